@@ -524,7 +524,7 @@ F("C01", "drop-endpoint-candidate", INTER, "inter_segment_segment", "        if 
 F("C01", "drop-origin-candidate", INTER, "inter_segment_halfline", "        if b.point in a:\n            point_set.add(b.point)\n", "", rule="R1.2")
 F("C01", "drop-whole-halfline-return", INTER, "inter_halfline_halfline", "        if b in a:\n            return b\n", "", rule="R1.2")
 F("C01", "candidate-tested-against-self", INTER, "inter_segment_halfline", "        if a.end_point in b:\n            point_set.add(a.end_point)",
-  "        if a.end_point in a:\n            point_set.add(a.end_point)", rule="R1.2")
+  "        if a.end_point in a:\n            point_set.add(a.end_point)", rule="R1.1")
 F("C01", "drop-parallel-guard-line-plane", INTER, "inter_line_plane", "    elif parallel(l, p):\n        return None\n", "", rule="R1.3")
 F("C01", "drop-parallel-guard-plane-plane", INTER, "inter_plane_plane", "    elif a.n.parallel(b.n):\n        return None\n    else:", "    else:", rule="R1.3")
 F("C01", "guard-on-wrong-operands", INTER, "inter_plane_plane", "    elif a.n.parallel(b.n):", "    elif a.n.parallel(a.n):", rule="R1.3")
